@@ -9,6 +9,24 @@ CHECKS = {
    text="Every public operation of circom_algebra::modular_arithmetic is compared with an independent reference (u128 for small primes, BigUint for the real primes) written from the Circom operator documentation. Small prime fields are enumerated completely (all operand pairs, all 23 operations), the three real primes are sampled at boundary values and at random, and shift counts too large to evaluate in-process run in a subprocess under RLIMIT_CPU/RLIMIT_AS so that an unbounded computation is observed as a violation. Exhaustive on small fields, sampling on the real ones: 'held on everything explored', not a proof.",
    note="Trusts the reference semantics in harness/src/field.rs (cross-checked u128 vs BigUint at start-up) and num-bigint-dig for the big reference; operands are canonical field elements; an error result is accepted only for zero divisors and for shift counts above the bit size.",
    design="DESIGN.md §3 C16"),
+ "C06": dict(
+   level="exploration",
+   technique="model-based testing against a reference interpreter: value metadata on every SSA IR node of generated executable programs compared with concrete values at every dynamic evaluation over generated valuations and all three primes (proptest tapes, shrinking); CS0009/CS0010 consumers checked on their own terms",
+   text="Generated functions/templates (all operators, boundary literals, loops, branches, shadowing, arrays, helper calls, signals, Num2Bits/Bits2Num instantiations) are lifted to SSA; a reference interpreter runs the generator's own AST under documentation-derived field semantics for 12 valuations. Every claimed constant on a node that maps back to a generator node must equal every recorded value of that node; every `always true/false` finding must agree with the recorded truth values; a Num2Bits/Bits2Num size judged safe under BN254 must be < 254 in every run.",
+   note="One-sided randomized oracle: no false alarms by construction, detection depends on a distinguishing valuation. Reference semantics in harness/src/field.rs + interp.rs. Locals are read only where definitely assigned (known finding F13 excluded by construction and replayed separately).",
+   design="DESIGN.md §3 C06"),
+ "C07": dict(
+   level="exploration",
+   technique="randomized polynomial identity testing (finite differences along random lines over all indeterminates, Schwartz-Zippel) of every degree bound on SSA IR nodes, using the reference interpreter on generated programs (proptest tapes, shrinking)",
+   text="For generated templates and functions whose control flow is independent of signals, ports and data parameters (enforced by the generator and re-validated by a static taint analysis), the interpreter is run at s0 + t*delta, t = 0..3, on 3 random lines; for each node bounded by constant/linear/quadratic the (d+1)-th finite difference of its four values must vanish mod p at every dynamic occurrence. CS0013 advice is checked with d = 2 on the right-hand side.",
+   note="A polynomial of degree <= d always passes; a higher-degree or non-polynomial expression escapes one line with probability <= D/p (p >= 2^64). Signals keep their witness value when assigned, as the property treats every signal as an independent indeterminate.",
+   design="DESIGN.md §3 C07"),
+ "C09": dict(
+   level="exploration",
+   technique="metamorphic testing with the reference interpreter: perturb the value stored by each flagged assignment (or parameter) and compare effect traces, on generated programs x valuations x replacement values (proptest tapes, shrinking)",
+   text="For every CS0006/CS0007/CS0008 finding about a local or parameter of a generated program (locals, parameters, input/output signals, loops, branches, asserts, returns) the interpreter is re-run with the flagged value replaced, for 8 valuations x 3 replacement values; signal assignments, constraints mentioning signals, asserts, return value, array dimensions and branch decisions must be identical.",
+   note="Pairs with a runtime error on either side are discarded and counted. One-sided: true claims never fail.",
+   design="DESIGN.md §3 C09"),
  "C10": dict(
    level="exploration",
    technique="model-based testing: a reference lexical scope resolver run on the generator's own AST is compared with the (name, suffix[, version]) identities in the pre-SSA and SSA CFG of generated definitions (proptest tapes, shrinking); CS0001/CS0002 reports compared with the generated shadowing declarations, in-process and through the real binary",
@@ -81,6 +99,12 @@ CHECKS = {
    text="(1) parser::preprocess (re-exported by the verif feature) must agree with a three-state reference lexer on Ok/Err, byte length, untouched code bytes and blanked comment bytes, for every string up to length 8 (quick) / 10 (thorough) over {/,*,newline,a,quote,space,é} and for generated long strings. (2) Generated programs with comments of every listed shape between tokens are run through the real binary: findings are identical after blanking each comment in place (line:col included), identical modulo positions after removing them, and the same definitions are analysed. (3) An unterminated opener injected at a random token boundary must yield an error diagnostic and a non-zero exit.",
    note="String literals are not special to the comment lexer (as in Circom's own preprocessor). Blanking replaces each comment character by one blank so displayed columns (counted in characters) are comparable. Crashing runs are skipped here and judged by C01.",
    design="DESIGN.md §3 C05"),
+ "C20": dict(
+   level="fault_enumeration",
+   technique="enumeration of every cut point of value and degree propagation through the verif pass-budget hook, re-checking the C06/C07 oracles at each cut on generated programs (proptest tapes, shrinking)",
+   text="The hook caps the number of propagation passes (stand-in for the 10 s time box). For each generated definition the passes-to-fixpoint F is measured and into_ssa is repeated for every budget k = 0..min(F,16) (plus sampled k above), for value and degree propagation independently; at each cut conversion and all passes must complete and all constants / degree bounds present must satisfy the C06 / C07 oracles, including CS0009, CS0010-size and CS0013 consumers.",
+   note="The elapsed-time check sits at the end of a pass, so stopping between passes is exactly what a slow machine can cause.",
+   design="DESIGN.md §3 C20"),
 }
 
 NOT_YET = {
